@@ -499,6 +499,12 @@ def _mirsym():
             stubs=["capnp generated accessors -> record model driven by locustdb-serialization/schemas/wal_segment.capnp", "capnp::serialize_packed::{write_message,read_message} -> identity on the record tree", "HashMap<String,V> -> association list"],
             assumptions=["capnpc-generated accessors and the capnp runtime implement the record semantics of vlib/mirsym/capnp_model.py; serialize_packed is lossless"])
 
+    add("C16.g/table_buffer_rows", "C16", "mirsym", Q,
+        "the client's row API: TableBuffer::push_row_and_timestamp called row after row with different key sets: TableBuffer.len counts the rows; every column holds, under the wire format's meaning (dense entry i = row i, sparse pair (r, v) = row r), exactly the value logged for each row (ints coerced to float once the column has seen a float) and nothing for rows that did not mention it or logged NULL; rows without a timestamp get one",
+        ["locustdb_serialization::event_buffer::TableBuffer::push_row_and_timestamp", "event_buffer::ColumnBuffer::push (+ closures)", "<ColumnBuffer as Default>::default"],
+        bounds="6 (quick) / 9 (thorough) row sequences of 2-4 rows over columns a, b, timestamp with kinds Int / Float / NULL / Str, values symbolic; the wall clock stubbed to a fixed instant; HashMap<String, ColumnBuffer> as association list",
+        spec=seb.TableBufferRowsSpec(), stubs=["SystemTime::now / duration_since / Duration::as_millis -> fixed instant", "HashMap<String,V> -> association list (entry / or_default)"])
+
 
 _mirsym()
 
